@@ -3,6 +3,7 @@ package main
 import (
 	"fmt"
 	"go/ast"
+	"go/constant"
 	"go/token"
 	"go/types"
 	"sort"
@@ -544,5 +545,213 @@ func ruleR028(c *Ctx) {
 	}
 	if n == 0 {
 		c.Note("funcGen.optimizer#first-match-folding", token.NoPos, "the optimizer folds no first-match node (switch) today")
+	}
+}
+
+// ---------------------------------------------------------------------------
+// R02.9 success of Parse/Generate does not depend on whether a node was folded
+//
+// Whether a node of the AST is a *Const is decided by the optimizer alone: the
+// same program has a Const at a place with the optimizer enabled and an
+// Ident/Let/ClosureLiteral without it. Code outside the optimizer that makes
+// Parse or Generate *fail* because a node is a constant (an "early" diagnostic:
+// wrong argument count of a constant closure, constant index out of range ...)
+// turns an error of the evaluation - which the program may catch, or which sits
+// in a branch that is never taken - into a failure of the generation, with the
+// optimizer only.
+
+func ruleR029(c *Ctx) {
+	n := 0
+	for _, pkg := range c.RepoPkgs {
+		info := pkg.TypesInfo
+		isConstPtr := func(t types.Type) bool {
+			p, ok := t.(*types.Pointer)
+			if !ok {
+				return false
+			}
+			nm := namedOf(p.Elem())
+			return nm != nil && nm.Obj().Pkg() != nil && nm.Obj().Pkg().Path() == modPath && nm.Obj().Name() == "Const"
+		}
+		freshError := func(fn ast.Node, e ast.Expr) bool {
+			e = ast.Unparen(e)
+			switch t := e.(type) {
+			case *ast.CallExpr:
+				return true
+			case *ast.Ident:
+				if t.Name == "nil" {
+					return false
+				}
+				obj := info.ObjectOf(t)
+				if as, i := definingAssign(info, fn, obj); as != nil && len(as.Rhs) == len(as.Lhs) && countAssignments(info, fn, obj) == 1 {
+					if call, ok := ast.Unparen(as.Rhs[i]).(*ast.CallExpr); ok {
+						if cal := Callee(info, call); cal != nil && cal.Pkg() != nil && (cal.Pkg().Path() == "fmt" || cal.Pkg().Path() == "errors") {
+							return true
+						}
+					}
+				}
+			}
+			return false
+		}
+		checkBody := func(fn ast.Node, key string, pos token.Pos, body []ast.Stmt) {
+			var bad *ast.ReturnStmt
+			for _, st := range body {
+				inspectNoLit(st, func(x ast.Node) bool {
+					r, ok := x.(*ast.ReturnStmt)
+					if !ok || bad != nil || len(r.Results) == 0 {
+						return true
+					}
+					last := r.Results[len(r.Results)-1]
+					if isErrorType(info.TypeOf(last)) || func() bool {
+						_, isCall := ast.Unparen(last).(*ast.CallExpr)
+						return isCall && types.AssignableTo(info.TypeOf(last), errorType)
+					}() {
+						if freshError(fn, last) {
+							bad = r
+						}
+					}
+					return true
+				})
+			}
+			if bad == nil {
+				c.OK(key, pos, "no failure of its own under the test for a constant node")
+			} else {
+				c.Violation(key, bad.Pos(), "a new error (%s) is returned because a node of the AST is a *Const: whether it is one is decided by the optimizer alone, so with the optimizer the generation fails where without it the program has a value (the error of the evaluation may be caught by try, or sit in a branch or closure that is never evaluated)", nodeStr(c.Fset, bad.Results[len(bad.Results)-1]))
+			}
+		}
+		for _, f := range pkg.Syntax {
+			for _, d := range f.Decls {
+				fd, ok := d.(*ast.FuncDecl)
+				if !ok || fd.Body == nil {
+					continue
+				}
+				k := 0
+				inspectNoLit(fd.Body, func(x ast.Node) bool {
+					switch t := x.(type) {
+					case *ast.IfStmt:
+						// if c, ok := e.(*Const[V]); ok { ... }
+						cond, ok := ast.Unparen(t.Cond).(*ast.Ident)
+						if !ok {
+							return true
+						}
+						obj := info.ObjectOf(cond)
+						as, i := definingAssign(info, fd, obj)
+						if as == nil || len(as.Rhs) != 1 || len(as.Lhs) != 2 || i != 1 {
+							return true
+						}
+						ta, ok := ast.Unparen(as.Rhs[0]).(*ast.TypeAssertExpr)
+						if !ok || ta.Type == nil || !isConstPtr(info.TypeOf(ta.Type)) {
+							return true
+						}
+						k++
+						n++
+						checkBody(fd, fmt.Sprintf("%s#const-node-test[%d]", declName(pkg, fd), k), t.Pos(), t.Body.List)
+					case *ast.TypeSwitchStmt:
+						for _, cl := range t.Body.List {
+							cc := cl.(*ast.CaseClause)
+							for _, e := range cc.List {
+								if isConstPtr(info.TypeOf(e)) && len(cc.List) == 1 {
+									k++
+									n++
+									checkBody(fd, fmt.Sprintf("%s#const-node-test[%d]", declName(pkg, fd), k), cc.Pos(), cc.Body)
+								}
+							}
+						}
+					}
+					return true
+				})
+			}
+		}
+	}
+	if n < 4 {
+		c.Undecided("parser2#const-node-tests", token.NoPos, "only %d tests for constant nodes found", n)
+	}
+}
+
+// ---------------------------------------------------------------------------
+// R02.10 declared purity is never upgraded by the library
+//
+// The optimizer folds what the descriptor of an operator, function or method
+// declares pure. The declaration belongs to whoever registered the function:
+// "false" is also the zero value, so code that treats false as "not set" and
+// fills it from another descriptor turns an explicitly impure function into a
+// pure one. A store into the IsPure field of an existing descriptor is
+// therefore only a downgrade (false, or a conjunction with the old value) or
+// the setter's own parameter.
+
+func ruleR0210(c *Ctx) {
+	n := 0
+	for _, pkg := range c.RepoPkgs {
+		info := pkg.TypesInfo
+		forEachFuncBody([]*packages.Package{pkg}, func(_ *packages.Package, fn ast.Node, body *ast.BlockStmt) {
+			k := 0
+			inspectNoLit(body, func(x ast.Node) bool {
+				as, ok := x.(*ast.AssignStmt)
+				if !ok || len(as.Lhs) != len(as.Rhs) {
+					return true
+				}
+				for i, l := range as.Lhs {
+					sel, ok := ast.Unparen(l).(*ast.SelectorExpr)
+					if !ok || (sel.Sel.Name != "IsPure" && sel.Sel.Name != "IsCommutative") {
+						continue
+					}
+					v, ok := info.ObjectOf(sel.Sel).(*types.Var)
+					if !ok || !v.IsField() || v.Pkg() == nil || !strings.HasPrefix(v.Pkg().Path(), modPath) {
+						continue
+					}
+					k++
+					n++
+					key := fmt.Sprintf("%s#flag-store[%d]:%s", c.FuncName(fn)+litSuffix(c, fn), k, nodeStr(c.Fset, sel))
+					rhs := ast.Unparen(as.Rhs[i])
+					ok2, why := false, ""
+					if tv := info.Types[rhs]; tv.Value != nil && tv.Value.Kind() == constant.Bool {
+						ok2, why = true, "a constant"
+					}
+					if id, ok := rhs.(*ast.Ident); ok && !ok2 {
+						// a parameter of the function: the caller declares the flag
+						if pv, ok := info.ObjectOf(id).(*types.Var); ok {
+							var ft *ast.FuncType
+							switch t := fn.(type) {
+							case *ast.FuncDecl:
+								ft = t.Type
+							case *ast.FuncLit:
+								ft = t.Type
+							}
+							if ft != nil && ft.Params != nil {
+								for _, f := range ft.Params.List {
+									for _, nm := range f.Names {
+										if info.Defs[nm] == pv {
+											ok2, why = true, "the parameter "+id.Name
+										}
+									}
+								}
+							}
+						}
+					}
+					if !ok2 {
+						// a conjunction that contains the old value of the same field
+						var conj func(e ast.Expr) bool
+						conj = func(e ast.Expr) bool {
+							e = ast.Unparen(e)
+							if be, ok := e.(*ast.BinaryExpr); ok && be.Op == token.LAND {
+								return conj(be.X) || conj(be.Y)
+							}
+							return nodeStr(c.Fset, e) == nodeStr(c.Fset, sel)
+						}
+						if be, ok := rhs.(*ast.BinaryExpr); ok && be.Op == token.LAND && conj(be) {
+							ok2, why = true, "a conjunction with the old value"
+						}
+					}
+					if ok2 {
+						c.OK(key, as.Pos(), "the flag is set to %s", why)
+					} else {
+						c.Violation(key, as.Pos(), "the flag %s of an existing descriptor is overwritten with %s: a descriptor that was declared impure (false is also the zero value of the field) can become pure, and the optimizer then executes the function while Generate runs and replaces the call by its result - an impure function is no longer called in every evaluation", nodeStr(c.Fset, sel), nodeStr(c.Fset, rhs))
+					}
+				}
+				return true
+			})
+		})
+	}
+	if n < 1 {
+		c.Undecided("funcGen#flag-stores", token.NoPos, "no store into a purity flag found (the setter Function.Pure is expected)")
 	}
 }
